@@ -211,6 +211,9 @@ type StructDef struct {
 	// PanicInit: the type's InitDefault panics (user code failing while frugal runs it under its registration lock).
 	// Such definitions are neither Valid nor Rejected; only the concurrency and history profiles call on them.
 	PanicInit bool
+	// HoldsPanic: a definition that nests a PanicInit one (its own initialiser, if any, is fine): its registration gets
+	// under way before the user code of the nested definition fails.
+	HoldsPanic bool
 	// LateInit: the type's InitDefault panics while the corpus variable InitNotReady is set (configuration that is
 	// loaded after the start-up warm-up). The harness sets it only around legacy warm-up calls.
 	LateInit bool
@@ -261,7 +264,7 @@ func (c *Corpus) index() {
 func (c *Corpus) Valid() []*StructDef {
 	var r []*StructDef
 	for _, s := range c.Structs {
-		if !s.Rejected() && !s.PanicInit {
+		if !s.Rejected() && !s.PanicInit && !s.HoldsPanic {
 			r = append(r, s)
 		}
 	}
@@ -272,7 +275,7 @@ func (c *Corpus) Valid() []*StructDef {
 func (c *Corpus) Panicky() []*StructDef {
 	var r []*StructDef
 	for _, s := range c.Structs {
-		if s.PanicInit {
+		if s.PanicInit || s.HoldsPanic {
 			r = append(r, s)
 		}
 	}
